@@ -40,6 +40,7 @@ def plan(tier, seed):
     jobs = [{"name": "enc%02d" % i, "spec": {"kind": "enc", "n": n // NSH, "i": i}} for i in range(NSH)]
     m = 128 if tier == "quick" else 6000
     jobs += [{"name": "fault%02d" % i, "spec": {"kind": "fault", "n": m // 8, "i": i}} for i in range(8)]
+    jobs += [{"name": "threads%02d" % i, "spec": {"kind": "threads", "rounds": 3 if tier == "quick" else 40, "i": i}} for i in range(3 if tier == "quick" else 12)]
     return jobs
 
 
@@ -47,7 +48,7 @@ def mandatory_bins(tier):
     b = ["len_mod16_%d" % i for i in range(16)] + ["trailing_zeros_%d" % z for z in range(18)]
     b += ["all_zero_content", "via_set_config", "via_direct_construction", "framing_bf3", "framing_bec2", "needle_scan", "needle_session_key", "needle_security_code",
           "needle_customer_key", "needle_plaintext_block", "key_ends_00", "default_key", "cipher_unregistered", "cipher_fails_at_call", "cipher_fails_at_first_call",
-          "cipher_fails_at_last_call", "fault_stream", "fault_path", "read_back_with_key", "long_content", "content_longer_than_1024", "rewrite_after_content_change", "rewrite_after_in_place_content_change", "set_config_over_preexisting_plain_configuration", "target_is_a_file_name", "read_back_without_mac_check", "rewrite_of_a_read_back_object", "rewrite_under_another_key", "marked_for_encryption_after_construction", "unusable_key_given_explicitly", "several_encrypted_components", "encrypted_component_not_last", "flag_set_with_other_enc_tag", "encryption_flag_passed_positionally", "content_given_as_bytearray"]
+          "cipher_fails_at_last_call", "fault_stream", "fault_path", "read_back_with_key", "long_content", "content_longer_than_1024", "rewrite_after_content_change", "rewrite_after_in_place_content_change", "set_config_over_preexisting_plain_configuration", "target_is_a_file_name", "read_back_without_mac_check", "rewrite_of_a_read_back_object", "rewrite_under_another_key", "marked_for_encryption_after_construction", "unusable_key_given_explicitly", "several_encrypted_components", "encrypted_component_not_last", "flag_set_with_other_enc_tag", "encryption_flag_passed_positionally", "content_given_as_bytearray", "files_written_and_read_by_concurrent_threads", "concurrent_threads_under_the_same_session_key"]
     return b
 
 
@@ -583,9 +584,75 @@ def fault_case(ns, ctx, rng, scratch, idx):
         ns.crypto.register_AES128(ns.plugin.AES128Proxy)
 
 
+def run_threads(ns, ctx, spec):
+    """files with encrypted components written, and read back, by several threads at once (own objects; same or different session keys),
+    interleaved at every source line of the BF3 writer / reader, the cipher adapter and the CBC mode: every stored payload is the CBC
+    ciphertext of its own content under its own key, and every read returns its own content"""
+    from ..sched import yieldrun
+
+    BF = ns.bf3file
+    rng = ctx.rng
+    codes = yieldrun.code_objects_of_module(ns.bf3file, ns.crypto, ns.plugin) + yieldrun.code_objects_of(ns.aes.AESModeOfOperationCBC, ns.aes.AESBlockModeOfOperation)
+    total = 0
+    for rnd in range(spec["rounds"]):
+        nthreads = (2, 3, 4)[(rnd + spec["i"]) % 3]
+        same_key = rnd % 2 == 1
+        k0 = rng.randbytes(16)
+        keys = [k0 if same_key else rng.randbytes(16) for _ in range(nthreads)]
+        contents = [[rng.randbytes(rng.choice((1, 15, 16, 17, 33, 48, 100))) for _ in range(rng.choice((1, 2)))] for _ in range(nthreads)]
+
+        def body(i):
+            def run():
+                comps = [BF.Bf3Component({0xC3: b"\x03", 0xC2: b"\x02", 1: bytes([j])}, c, len(c), encrypt_by_session_key=True) for j, c in enumerate(contents[i])]
+                comps.insert(1, BF.Bf3Component({1: b"p"}, b"plain part"))
+                buf = io.StringIO()
+                BF.Bf3File({}, comps).write_file(buf, keys[i])
+                back = BF.Bf3File.read_file(io.StringIO(buf.getvalue()), True, keys[i])
+                return buf.getvalue(), back
+            return run
+
+        res, y = yieldrun.run_concurrently([body(i) for i in range(nthreads)], codes, sleep=0.0002, max_yields=8000)
+        total += y
+        ctx.bin("files_written_and_read_by_concurrent_threads")
+        if same_key:
+            ctx.bin("concurrent_threads_under_the_same_session_key")
+        for i, r in enumerate(res):
+            ctx.ev()
+            ctx.distinct("threads", rnd, keys[i], contents[i])
+            rp = {"kind": "threads", "i": spec["i"]}
+            if r is None:
+                ctx.note("thread_still_running_after_timeout(inconclusive)")
+                continue
+            if r[0] == "exc":
+                ctx.violation("write_or_read_raises_under_concurrent_use", {"exc": r[1][:200], "threads": nthreads, "same_key": same_key}, rp)
+                continue
+            text, back = r[1]
+            ctx.mon("write_file")
+            try:
+                ents = L.parse_bf3(L.parse_text(text)[1], keys[i])
+            except L.LayoutError as e:
+                ctx.violation("written_file_not_parsable_by_model:" + e.rule, {"how": "written_by_concurrent_threads", "threads": nthreads, "same_key": same_key}, rp)
+                continue
+            enc_ents = [e for e in ents if dict(e.desc).get(0xC2) == b"\x02"]
+            ctx.mon("stored_payload_vs_openssl")
+            for e, c in zip(enc_ents, contents[i]):
+                if e.payload != ossl.aes_cbc(keys[i], ossl.ZERO_IV, ossl.pad0(c), True):
+                    ctx.violation("stored_payload_is_not_cbc_ciphertext_of_padded_content:written_by_concurrent_threads", {"len": len(c), "threads": nthreads, "same_key": same_key}, rp)
+                    break
+            if back is not None:
+                ctx.mon("read_back")
+                got = [bytes(c.blob)[: c.actual_len] for c in back.components if c.description.get(0xC2) == b"\x02"]
+                if got != contents[i]:
+                    ctx.violation("read_back_differs_from_content:read_by_concurrent_threads", {"threads": nthreads, "same_key": same_key}, rp)
+    ctx.mon("line_yields_injected", total)
+
+
 def run_shard(spec, ctx):
     ns = load()
     rng = ctx.rng
+    if spec["kind"] == "threads":
+        run_threads(ns, ctx, spec)
+        return
     if spec["kind"] == "fault":
         scratch = tempfile.mkdtemp(prefix="c06-", dir=os.environ.get("VERIF_SCRATCH"))
         try:
@@ -648,7 +715,9 @@ def run_shard(spec, ctx):
 
 def replay(rec, ctx):
     ns = load()
-    if rec["kind"] == "bytearray":
+    if rec["kind"] == "threads":
+        run_threads(ns, ctx, {"rounds": 6, "i": rec["i"]})
+    elif rec["kind"] == "bytearray":
         check_bytearray_content(ns, ctx, ctx.rng, bytes.fromhex(rec["key"]))
     elif rec["kind"] == "flag":
         check_flag_wins(ns, ctx, ctx.rng, bytes.fromhex(rec["key"]))
